@@ -157,6 +157,11 @@ func (p *polling) onDataRequest(ctx *types.HttpContext) {
 
 	onClose := func(...any) {
 		cleanup()
+		if p.ReadyState() != "open" {
+			// the transport is being closed and DoClose has aborted this request itself
+			polling_log.Debug("data request aborted, the transport is closing")
+			return
+		}
 		p.OnError("data request connection closed prematurely", nil)
 	}
 
